@@ -174,7 +174,10 @@ class Bisection1D:
         # find upper bound that respects max_boreholes
         if self.sim_params.max_boreholes is not None:
             num_coordinates_in_each = [len(x) for x in self.coordinates_domain]
-            x_r_idx = [idx for idx, x in enumerate(num_coordinates_in_each) if x < self.sim_params.max_boreholes][-1]
+            allowed = [idx for idx, x in enumerate(num_coordinates_in_each) if x < self.sim_params.max_boreholes]
+            if not allowed:
+                raise ValueError("Search failed: every field in the domain has at least max_boreholes boreholes.")
+            x_r_idx = allowed[-1]
         else:
             x_r_idx = len(self.coordinates_domain) - 1
 
